@@ -45,6 +45,10 @@ pub fn run(cfg: &Cfg, log: &mut Log) {
                 }
             }
             // independent second oracle: the reference decoder on the same bytes
+            if model::layout::has_odd_unit(&rc.ty) {
+                log.count("refdec_skipped_non_power_of_two_unit", 1);
+                continue;
+            }
             match model::dec::decode(&rc.ty, &bytes) {
                 Ok((_, back)) => {
                     if back != v {
